@@ -207,6 +207,81 @@ class Scheduler:
             body_b()  # the point was not reached: B still runs (alone), so that both outcome lists are complete
         return st["switched"], st["finished"]
 
+    def run_fast2(self, code1, line1: int, occ1: int, code2, line2: int, occ2: int, body_a, body_b, timeout: float = 60.0):
+        """Two preemptions: thread A is paused before (code1, line1, occ1); thread B starts and is itself paused before
+        (code2, line2, occ2) -- or finishes, if it never gets there; A then runs to completion; B is released and finishes.
+        LINE events are enabled for the one or two code objects only.  Returns (a_paused, b_paused, finished)."""
+        was_installed = self.installed
+        if not was_installed:
+            mon.use_tool_id(TOOL, "verifmon-sched")
+        mon.set_events(TOOL, 0)
+        st = {"a": None, "b": None, "seen1": 0, "seen2": 0, "phase": 0, "tb": None, "finished": True}
+        progress = threading.Event()  # B is paused, or B is done
+        release = threading.Event()
+
+        def run_b():
+            st["b"] = threading.get_ident()
+            try:
+                body_b()
+            finally:
+                st["b_done"] = True
+                progress.set()
+
+        def cb(c, ln):
+            tid = threading.get_ident()
+            if tid == st["a"] and st["phase"] == 0 and ln == line1 and c is code1:
+                st["seen1"] += 1
+                if st["seen1"] == occ1:
+                    st["phase"] = 1
+                    tb = threading.Thread(target=run_b, name="verif-fast2-b", daemon=True)
+                    st["tb"] = tb
+                    tb.start()
+                    if not progress.wait(timeout):
+                        st["finished"] = False
+            elif tid == st["b"] and st["phase"] == 1 and ln == line2 and c is code2:
+                st["seen2"] += 1
+                if st["seen2"] == occ2:
+                    st["phase"] = 2
+                    progress.set()
+                    if not release.wait(timeout):
+                        st["finished"] = False
+            return None
+
+        mon.register_callback(TOOL, mon.events.LINE, cb)
+        mon.set_local_events(TOOL, code1, mon.events.LINE)
+        if code2 is not code1:
+            mon.set_local_events(TOOL, code2, mon.events.LINE)
+        try:
+
+            def run_a():
+                st["a"] = threading.get_ident()
+                body_a()
+
+            ta = threading.Thread(target=run_a, name="verif-fast2-a", daemon=True)
+            ta.start()
+            ta.join(timeout)
+            if ta.is_alive():
+                st["finished"] = False
+            release.set()
+            if st["tb"] is not None:
+                st["tb"].join(timeout)
+                if st["tb"].is_alive():
+                    st["finished"] = False
+        finally:
+            release.set()
+            mon.set_local_events(TOOL, code1, 0)
+            if code2 is not code1:
+                mon.set_local_events(TOOL, code2, 0)
+            if was_installed:
+                mon.register_callback(TOOL, mon.events.LINE, self._on_line)
+                mon.set_events(TOOL, mon.events.LINE)
+            else:
+                mon.register_callback(TOOL, mon.events.LINE, None)
+                mon.free_tool_id(TOOL)
+        if st["phase"] == 0 and st["finished"]:
+            body_b()
+        return st["phase"] >= 1, st["phase"] == 2, st["finished"]
+
     def trace_key(self) -> str:
         return ";".join(f"{a}>{b}@{n}" for a, b, n in self.switches)
 
